@@ -27,9 +27,9 @@ POOLS = {
 def levels(tier):
     if tier == "quick":
         return [
-            {"name": "pages-n1", "pools": ["a", "b", "c"], "n": 1, "alphabet": ["page"], "defaults": ["domain", "subdomain", "path1"],
-             "anchored": [None, (1, 3, "path1"), (2, 3, "path2")]},
-            {"name": "pages-n2", "pools": ["a"], "n": 2, "alphabet": ["page"], "defaults": ["domain", "path1"],
+            {"name": "pages-n1", "pools": ["a", "b", "c"], "n": 1, "alphabet": ["page"], "defaults": ["domain", "path1"],
+             "anchored": [None, (1, 3, "path1")]},
+            {"name": "pages-n2", "pools": ["a"], "n": 2, "alphabet": ["page"], "defaults": ["domain"],
              "anchored": [None, (1, 3, "path1")]},
             {"name": "install", "pools": ["a"], "n": 2, "alphabet": ["page"], "defaults": ["domain"],
              "anchored": [None], "late_rule": [(1, 3, "path1"), (2, 1, "subdomain")]},
